@@ -1075,6 +1075,12 @@ func ruleEncPaths(p *Prog, r *Out) {
 				continue
 			}
 			i = 3
+			// the low point of a size that went down and up again comes first
+			// (RFC 7541 s4.2): a second update, and no third (enc-size-update
+			// says which values they carry)
+			if len(ev) >= 5 && ev[3].Kind == "byte" && ev[3].Arg == 0x20 && ev[4].Kind == "int" && ev[4].Arg == 5 {
+				i = 5
+			}
 		}
 		rest := ev[i:]
 		if len(rest) == 0 || rest[0].Kind != "byte" {
@@ -1368,6 +1374,20 @@ func ruleEncSizeUpdate(p *Prog, r *Out) {
 				}
 				return true
 			})
+			// the low point: announced first, exactly when it is below the final size
+			var lowIf *ast.IfStmt
+			lowPos, maxPos := token.NoPos, token.NoPos
+			for _, st := range ifs.Body.List {
+				if in, ok := st.(*ast.IfStmt); ok && squash(p.text(in.Cond)) == "hp.pendingLowSize<hp.maxTableSize" && in.Else == nil && len(in.Body.List) == 1 {
+					if squash(p.text(in.Body.List[0])) == "dst=appendInt(append(dst,0x20),5,uint64(hp.pendingLowSize))" {
+						lowIf, lowPos = in, in.Pos()
+					}
+				}
+				if squash(p.text(st)) == "dst=appendInt(append(dst,0x20),5,uint64(hp.maxTableSize))" {
+					maxPos = st.Pos()
+				}
+			}
+			r.check(lowIf != nil && maxPos.IsValid() && lowPos < maxPos, "the lowest size since the last block is announced first", p.pos(ifs.Pos()), "if pendingLowSize < maxTableSize { update(pendingLowSize) }; update(maxTableSize)", "a table size that went down and up again between two blocks is no longer announced as its low point followed by its final value (RFC 7541 s4.2): the peer keeps entries the encoder dropped on the way")
 			r.check(clears, "flag cleared", p.pos(ifs.Pos()), "pendingSizeUpdate cleared when announced", "the pending-size-update flag is not cleared when the update is written: every later field would be preceded by a size update, which RFC 7541 s4.2 only allows at the start of a block")
 			r.check(emits, "announces current maximum", p.pos(ifs.Pos()), "the update carries hp.maxTableSize", "the size update does not carry the encoder's current maximum table size")
 		}
@@ -1409,6 +1429,29 @@ func ruleEncSizeUpdate(p *Prog, r *Out) {
 			}
 		}
 	}
+	// the low point is kept: reset by the first change after an announcement, lowered by later ones
+	keepsLow, lowAt, flagAt := false, token.NoPos, token.NoPos
+	for _, st := range sd.Body.List {
+		if ifs, ok := st.(*ast.IfStmt); ok && ifs.Else == nil && len(ifs.Body.List) == 1 && squash(p.text(ifs.Body.List[0])) == "hp.pendingLowSize=size" {
+			if atoms, pure := pureJunction(ifs.Cond, false); pure && len(atoms) == 2 {
+				got := map[string]bool{}
+				for _, a := range atoms {
+					t := squash(p.text(a.Cond))
+					if a.Val {
+						t = "!" + t
+					}
+					got[t] = true
+				}
+				// flattened by what holds when the disjunction is false
+				keepsLow = got["!hp.pendingSizeUpdate"] && got["size<hp.pendingLowSize"]
+				lowAt = ifs.Pos()
+			}
+		}
+		if squash(p.text(st)) == "hp.pendingSizeUpdate=true" {
+			flagAt = st.Pos()
+		}
+	}
+	r.check(keepsLow && lowAt.IsValid() && flagAt.IsValid() && lowAt < flagAt, "the lowest size since the last block is kept", p.pos(sd.Pos()), "if !pendingSizeUpdate || size < pendingLowSize { pendingLowSize = size } before the flag is set", "SetMaxTableSize no longer keeps the smallest size set since the peer was last told (starting afresh with the first change after an announcement)")
 	r.check(storesMax && setsFlag, "change sets flag", p.pos(sd.Pos()), "every change of the maximum sets pendingSizeUpdate", "SetMaxTableSize changes the maximum without unconditionally flagging the change for announcement (RFC 7541 s4.2)")
 	r.check(shrinks, "change evicts", p.pos(sd.Pos()), "entries evicted down to the new maximum", "SetMaxTableSize no longer evicts entries down to the new maximum: the encoder keeps referring to entries the peer has dropped")
 	// the early return must require BOTH sizes to be equal already
